@@ -119,11 +119,13 @@ func (h *Handler) receive(ctx context.Context, conn *net.UDPConn, queue chan dat
 				switch length, index, ok := parseHeader(buffer[:8]); {
 				case length == 0 && index == -1 && !ok:
 					h.onError(conn, core.InvalidRequestError{})
+				case length != n-8:
+					h.onError(conn, core.InvalidRequestError{})
 				case length > h.Service.MaxRequestLength:
 					h.sendResponse(ctx, queue, index, nil, core.ErrRequestEntityTooLarge, addr)
 				default:
 					body := make([]byte, length)
-					copy(body, buffer[8:])
+					copy(body, buffer[8:n])
 					if h.Pool != nil {
 						h.Pool.Submit(h.task(core.WithContext(ctx, h.getServiceContext(conn, addr)), queue, index, body, addr))
 					} else {
